@@ -100,17 +100,21 @@ func (s *ledgerSim) submit(b *pb.InternalBlock) string {
 
 func (s *ledgerSim) step(op fx.Ev) (string, error) {
 	l := s.node.Ledger
+	// A generated operation may name a block the real ledger never stored (it refused a block the specification
+	// accepts): that earlier divergence is what the validation reports; the driver just records and goes on.
+	for _, f := range []string{"p", "b", "t"} {
+		if op.Has(f) && s.blocks[op.Int(f)] == nil {
+			return "noblock", nil
+		}
+	}
 	switch op.Str("op") {
 	case "confirm":
 		p := s.blocks[op.Int("p")]
 		if p == nil {
 			return "", fmt.Errorf("unknown abstract parent %d", op.Int("p"))
 		}
-		ph, err := l.QueryBlockHeader(p.Blockid)
-		if err != nil {
-			return "", fmt.Errorf("parent %d not stored: %v", op.Int("p"), err)
-		}
-		b, err := s.mkBlock(p.Blockid, ph.Height+1, op.Ints("txs"), 1)
+		// heights come from the harness's own copies: the driver must not depend on the ledger answering correctly
+		b, err := s.mkBlock(p.Blockid, p.Height+1, op.Ints("txs"), 1)
 		if err != nil {
 			return "", err
 		}
@@ -130,11 +134,7 @@ func (s *ledgerSim) step(op fx.Ev) (string, error) {
 		return s.submit(b), nil
 	case "confirm_twocb":
 		p := s.blocks[op.Int("p")]
-		ph, err := l.QueryBlockHeader(p.Blockid)
-		if err != nil {
-			return "", err
-		}
-		b, err := s.mkBlock(p.Blockid, ph.Height+1, nil, 2)
+		b, err := s.mkBlock(p.Blockid, p.Height+1, nil, 2)
 		if err != nil {
 			return "", err
 		}
